@@ -320,8 +320,12 @@ class Server:
             data = self.fswatcher.dump_file_data() if hasattr(self, "fswatcher") else {}
             # Using .dumps and then writing was noticeably faster than using dump
             s = json.dumps(data)
-            with open(fswatcher_dump_file, "w") as f:
-                f.write(s)
+            try:
+                with open(fswatcher_dump_file, "w") as f:
+                    f.write(s)
+            except OSError as err:
+                # A bad path given by the client must not take the daemon down.
+                return {"error": f"Cannot write fswatcher dump file: {err}"}
         return res
 
     def cmd_stop(self) -> dict[str, object]:
